@@ -29,7 +29,7 @@ def plan(tier, seed):
     progs = []
     rng = gen_rng(seed, "plan")
     # ---- index family
-    names = [n for n, o in G.OPS.items() if o.family == "index"]
+    names = [n for n, o in G.OPS.items() if o.family == "index" and o.wave < 2]
     rounds = 1 if quick else 2
     gid = 0
     for rnd in range(rounds):
@@ -73,7 +73,7 @@ def plan(tier, seed):
             if gl:
                 progs.append((G.Program("c09_s%d_%s_ix%d" % (seed, tier[0], pi), gl), flavors))
     # ---- view / eval family: one operation per program (array kinds are expensive to compile)
-    vnames = [n for n, o in G.OPS.items() if o.family == "view" and not o.composite]
+    vnames = [n for n, o in G.OPS.items() if o.family == "view" and not o.composite and o.wave < 2]
     vquick = ["transpose", "reshape", "broadcast_to", "add", "multiply", "sum", "slice", "tile", "concatenate", "matmul"]
     vrounds = 1 if quick else 2
     if os.environ.get("C09_FAMILY") == "index":       # debugging aid
@@ -139,10 +139,68 @@ def plan(tier, seed):
             g = G.make_group(gid, o, grng, ordered, 1, 0 if quick else 56, dims=dims, small=quick)
             gid += 1
             progs.append((G.Program("c09_s%d_%s_c%d_%s" % (seed, tier[0], rnd, n), [g]), flavors))
+    # ---- second wave of operations (vf/c09_ops2.py): own pool and own random stream (the programs above do not depend on it).
+    # quick: 4 index functions (one program, two builds) and 3 views (reduced kind set) drawn from the seed - every operation of the
+    # wave is touched under every seed by the deterministic core (core2_programs); thorough: every operation once
+    from . import c09_ops2 as O2
+    wrng = gen_rng(seed, "plan/wave2")
+    ix2, v2 = list(O2.WAVE2_INDEX), list(O2.WAVE2_VIEW)
+    wrng.shuffle(ix2)
+    wrng.shuffle(v2)
+    if quick:
+        ix2, v2 = ix2[:4], v2[:3]
+    if os.environ.get("C09_FAMILY") == "index":
+        v2 = []
+    if os.environ.get("C09_FAMILY") == "view":
+        ix2 = []
+    only = os.environ.get("C09_ONLY_FLAVORS")
+
+    def pick_flavors(k, both=True):
+        fl = ["asan"] + ([["clang"], ["nostl"]][k % 2] if both else [])
+        if only:
+            fl = [f for f in fl if f in only.split(",")] or [only.split(",")[0]]
+        return fl
+
+    per = 4 if quick else 3
+    for k in range(0, len(ix2), per):
+        flavors = pick_flavors(k // per)
+        gl = []
+        for n in ix2[k:k + per]:
+            o = G.OPS[n]
+            dims = wrng.choice(o.dims)
+            cfgs = None
+            for fl in flavors:
+                s_ = set(sup.get(fl, {}).get(o.name, {}).get(repr(dims), []))
+                cfgs = s_ if cfgs is None else (cfgs & s_)
+            ordered = [c for c in G.candidates(o) if c in cfgs]
+            if not ordered:
+                continue
+            gl.append(G.make_group(gid, o, gen_rng(seed, "w2group/%s" % n), ordered, 2, 26 if quick else 40, dims=dims))
+            gid += 1
+        if gl:
+            progs.append((G.Program("c09_s%d_%s_w2ix%d" % (seed, tier[0], k // per), gl), flavors))
+    for k, n in enumerate(v2):
+        o = G.OPS[n]
+        dims = wrng.choice(o.dims)
+        flavors = pick_flavors(k, both=not quick)
+        flavors = [fl for fl in flavors if repr(dims) in sup.get(fl, {}).get(o.name, {})]
+        if "asan" not in flavors:
+            continue
+        cfgs = None
+        for fl in flavors:
+            s_ = set(sup.get(fl, {}).get(o.name, {}).get(repr(dims), []))
+            cfgs = s_ if cfgs is None else (cfgs & s_)
+        ordered = [c for c in G.candidates(o) if c in cfgs]
+        if not ordered:
+            continue
+        g = G.make_group(gid, o, gen_rng(seed, "w2vgroup/%s" % n), ordered, 1, (0 if quick else 32) // o.weight, dims=dims, small=True)
+        gid += 1
+        if g.cfgs:
+            progs.append((G.Program("c09_s%d_%s_w2v_%s" % (seed, tier[0], n), [g]), flavors))
     if os.environ.get("C09_CORE_ONLY"):      # debugging aid
         progs = []
     if not os.environ.get("C09_NO_CORE"):
-        progs = core_programs(sup) + progs
+        progs = core_programs(sup) + core2_programs(sup) + progs
     if os.environ.get("C09_OPS"):
         # debugging / self-test aid: only the programs (unchanged) that contain one of the named operations
         want = set(os.environ["C09_OPS"].split(","))
@@ -294,6 +352,67 @@ def core_programs(sup, gid0=9000):
         if groups:
             out.append((G.Program(name, groups), ["asan"]))
     return out
+
+
+# ---- deterministic core of the second wave: EVERY operation of vf/c09_ops2.py under every seed in a few cheap configurations -
+# all index arguments compile-time constants / fixed-length run-time / dynamic (+ tightly bounded for index functions), array
+# operands constant-shape fixed / fixed-dim hybrid / dynamic.  Baked values and value sets come from a fixed random stream.
+CORE2_VIEW_PROGRAMS = 3
+
+
+def _core2_cfgs(o):
+    if o.family == "index":
+        ias = [a for a in o.args if a.typ == "ia"]
+        out = []
+        for k, T in (("ct", None), ("fx", "int"), ("dy", "int"), ("svt", "int")):
+            if k == "svt" and not ias:
+                continue
+            cfg = []
+            for a in o.args:
+                if a.typ == "ia":
+                    cfg.append(G.ArgCfg(k, T))
+                else:
+                    cfg.append(G._is_cfg(a, k, "int"))
+            out.append(G.cfg_str(cfg))
+        return out
+    build = G._view_build2(o)
+    narr = len([a for a in o.args if a.typ == "arr"])
+    out = [build(["cs_fb"] * narr, "ct"), build(["fs_hb"] * narr, "fx"), build(["ds_db"] * narr, "dy")]
+    if not narr:
+        out.append(build([], "clt"))
+    res = []
+    for c in out:
+        if c not in res:
+            res.append(c)
+    return res
+
+
+def core2_programs(sup, gid0=9500):
+    from . import c09_ops2 as O2
+    gid = gid0
+    buckets = {}
+    vk = 0
+    for n in O2.WAVE2:
+        o = G.OPS[n]
+        r = random.Random("c09core2/%s" % n)
+        with_none, without = split_dims(o)
+        dims = (without or with_none)[0]
+        allowed = sup.get("asan", {}).get(n, {}).get(repr(dims), [])
+        cfgs = [c for c in _core2_cfgs(o) if c in allowed]
+        if not cfgs:
+            continue
+        g = G.make_group(gid, o, r, cfgs, 1, 10**6, dims=dims, all_cfgs=True)
+        gid += 1
+        if not g.cfgs:
+            continue
+        vs, _ = value_sets(g, r, 12, 0)
+        g.fixed_values = [v for v, why in vs]
+        if o.family == "index":
+            buckets.setdefault("c09_core2_ix", []).append(g)
+        else:
+            buckets.setdefault("c09_core2_v%d" % (vk % CORE2_VIEW_PROGRAMS), []).append(g)
+            vk += 1
+    return [(G.Program(name, groups), ["asan"]) for name, groups in sorted(buckets.items())]
 
 
 def split_dims(o):
@@ -606,6 +725,12 @@ def run_plan(ctx, tier, seed, want_flavors=None):
                 toks = g.case_tokens(v)
                 failing = expected_of_vals(g, v) == G.NOTHING
                 for inst in g.insts:
+                    if g.op.exclude is not None and inst.cfg != "cx":
+                        why_ex = g.op.exclude(inst.cfg, v)
+                        if why_ex:
+                            ex = info.setdefault("cells_excluded_pending_triage", {})
+                            k_ = "%s:%s (%s)" % (g.op.name, G.cfg_class(inst.cfg), why_ex)
+                            ex[k_] = ex.get(k_, 0) + 1
                     if not g.admits(inst, v):
                         continue
                     cid += 1
@@ -926,13 +1051,21 @@ def symptom(exp, got):
     return "values"
 
 
-def same_result(exp, got):
+def _close(a, b, tol):
+    a, b = float(a), float(b)
+    return a == b or (tol > 0 and abs(a - b) <= tol * max(1.0, abs(a), abs(b)))
+
+
+def same_result(exp, got, tol=0.0):
+    """tol: relative tolerance for floating-point results (operations that declare one); 0 = exact"""
     if exp[0] != got[0]:
         return False
     if exp[0] == "A":
-        return list(exp[1]) == list(got[1]) and got[2] is not None and len(exp[2]) == len(got[2]) and all(float(a) == float(b) for a, b in zip(exp[2], got[2]))
+        if exp[2] is None or got[2] is None:
+            return exp[2] is None and got[2] is None and list(exp[1]) == list(got[1])
+        return list(exp[1]) == list(got[1]) and len(exp[2]) == len(got[2]) and all(_close(a, b, tol) for a, b in zip(exp[2], got[2]))
     if exp[0] == "S":
-        return float(exp[1]) == float(got[1])
+        return _close(exp[1], got[1], tol)
     return list(exp[1:]) == list(got[1:])
 
 
@@ -1086,7 +1219,7 @@ def judge_c09(ctx, recs, info):
             unchecked += 1
             continue
         for where, g_ in got:
-            if not same_result(exp, g_):
+            if not same_result(exp, g_, o.tol):
                 sy = symptom(exp, g_)
                 ctx.violation("%s:%s:deviates" % (o.name, cc),
                               "%s(%s): configuration %s [%s] %s differs in %s: gives %s, reference (NumPy) %s" % (o.name, vals_brief(r), r.inst.cfg, r.flavor, where, sy, str(g_)[:200], str(exp)[:200]), det)
@@ -1106,7 +1239,7 @@ def judge_c09(ctx, recs, info):
         nflav += 1
         f0, g0, r0 = lst[0]
         for f1, g1, r1 in lst[1:]:
-            if any(not same_result(a[1], b[1]) and not (a[1][0] == "A" and b[1][0] == "A" and a[1][2] is None and b[1][2] is None) for a, b in zip(g0, g1)):
+            if any(not same_result(a[1], b[1], r0.g.op.tol) and not (a[1][0] == "A" and b[1][0] == "A" and a[1][2] is None and b[1][2] is None) for a, b in zip(g0, g1)):
                 o = r0.g.op
                 ctx.violation("%s:%s:flavors_differ" % (o.name, G.cfg_class(r0.inst.cfg)),
                               "%s(%s) configuration %s: build %s gives %s, build %s gives %s" % (o.name, vals_brief(r0), r0.inst.cfg, f0, str(g0)[:150], f1, str(g1)[:150]),
